@@ -53,7 +53,11 @@ func installHook() {
 			if strings.HasPrefix(point, "fs.add.") && !parkInFileAdd.Load() {
 				return
 			}
-			v, ok := registry.Load(goid())
+			g := goid()
+			if _, q := quietG.Load(g); q {
+				return // a read the harness makes for itself inside a scheduled request
+			}
+			v, ok := registry.Load(g)
 			if !ok {
 				return // a goroutine the scheduler does not manage (sequential requests)
 			}
@@ -217,9 +221,13 @@ func (s *Sched) stepTracked(i int) Outcome {
 }
 
 // holds: thread i is parked inside a locked section (every yield point of a mutating handler and of
-// the file store's Add lies inside locks.Run; the listing's yield point does not)
+// the file store's Add lies inside locks.Run; the yield points of the listing and of the GETs do not)
 func (s *Sched) holds(i int) bool {
-	return i < len(s.threads) && s.threads[i].parked != "" && s.threads[i].parked != "gcs.list.walked"
+	p := ""
+	if i < len(s.threads) {
+		p = s.threads[i].parked
+	}
+	return p != "" && p != "gcs.list.walked" && p != "gcs.get.fetched"
 }
 
 // gstate returns the runtime's wait state of a goroutine ("running", "sync.RWMutex.Lock", "chan send", ...).
